@@ -2,8 +2,10 @@
   C05 — outputs do not depend on field order or on spelling out Not Defined.
 -/
 import Cvss.Model.Any
+import Cvss.Lemmas.Construct
+import Cvss.Lemmas.Invariance
 namespace Cvss.Props.C05
-open Cvss Cvss.Model
+open Cvss Cvss.Model Cvss.Lemmas.Construct Cvss.Lemmas.Invariance
 
 /-- every optional metric admits the Not Defined token (so it can be spelled out), no mandatory one does -/
 def ndLegal (T : Tables) (nd : Str) : Bool :=
@@ -13,5 +15,167 @@ def ndLegal (T : Tables) (nd : Str) : Bool :=
 
 theorem nd_legal : ndLegal V2.tables V2.ND = true ∧ ndLegal V3.tables V3.X = true ∧ ndLegal V4.tables V4.X = true := by
   decide +kernel
+
+/-- propositional form of `ndLegal`: spelling an optional metric out as Not Defined is a legal pair -/
+theorem ndLegal_pair {T : Tables} {g : Spec.Grammar.G} (hp : C04.Pinned T g) {nd : Str}
+    (h : ndLegal T nd = true) {k : Str} (hk : k ∈ T.abbrs) (hopt : k ∉ T.mandatory) :
+    LegalPair T (k, nd) := by
+  have := List.all_eq_true.1 h k hk
+  split at this
+  · rename_i vs hvs
+    rw [if_neg hopt] at this
+    exact legalPair_of_mem hp hk hvs (of_decide_eq_true this)
+  · cases this
+
+/-! ### the observables named by the property -/
+
+/-- v2: scores, ratings, clean vector, Red Hat vector, both sub-vectors, hash key -/
+def obs2 (o : V2.Obj) : List (Option Rat) × List Str × Str × Str × Str × Str × Str :=
+  (o.scores, o.severities, o.clean, (AnyObj.o2 o).rh, o.temporalVector, o.environmentalVector, (AnyObj.o2 o).hashKey)
+
+def obs3 (o : V3.Obj) : List (Option Rat) × List Str × Str × Str × Str × Str × Str × Str :=
+  (o.scores, o.severities, o.clean true, o.clean false, (AnyObj.o3 o).rh, o.temporalVector, o.environmentalVector,
+   (AnyObj.o3 o).hashKey)
+
+/-! ### MAIN: the observables are functions of the NORMALISED input (the assignment: stated value, or
+    Not Defined for an absent metric) -/
+
+/-- v2: two accepted vectors whose assignments agree on every metric of the table have the same
+    observables and are equal objects -/
+theorem v2_obs_of_assignment (s s' : Str) (o o' : V2.Obj) (h : V2.construct s = .ok o) (h' : V2.construct s' = .ok o')
+    (he : ∀ k ∈ keys Gen.V2.abbrs, assignment V2.ND o.metrics k = assignment V2.ND o'.metrics k) :
+    obs2 o = obs2 o' ∧ (AnyObj.o2 o).eq (AnyObj.o2 o') = true := by
+  obtain ⟨hp, -, hb, ht, hen⟩ := v2_construct_spec h
+  obtain ⟨hp', -, hb', ht', hen'⟩ := v2_construct_spec h'
+  obtain ⟨-, -, hl, -, -⟩ := C04.v2_parse_ok_fields _ _ hp
+  obtain ⟨-, -, hl', -, -⟩ := C04.v2_parse_ok_fields _ _ hp'
+  have ha : assignment V2.ND o.metrics = assignment V2.ND o'.metrics :=
+    assignment_ext V2.ND (keys Gen.V2.abbrs) (keys_subset_of_legal hl) (keys_subset_of_legal hl') he
+  have hc : o.clean = o'.clean := v2_cleanOf_congr ha
+  have hbase : o.base = o'.base := by rw [hb, hb', ha]
+  have htemp : o.temporal = o'.temporal := by rw [ht, ht', ha]
+  have henv : o.env = o'.env := by rw [hen, hen', ha]
+  have hsc : o.scores = o'.scores := by simp only [V2.Obj.scores, hbase, htemp, henv]
+  have htv : o.temporalVector = o'.temporalVector := by
+    rw [(v2_subvectors o).1, (v2_subvectors o').1, ha]
+  have hev : o.environmentalVector = o'.environmentalVector := by
+    rw [(v2_subvectors o).2, (v2_subvectors o').2, ha]
+  refine ⟨?_, ?_⟩
+  · simp only [obs2, V2.Obj.severities, AnyObj.rh, AnyObj.hashKey, AnyObj.base, AnyObj.clean,
+      hsc, hc, hbase, htv, hev]
+  · simp only [AnyObj.eq, AnyObj.ver, AnyObj.clean, hc, decide_true, Bool.and_self]
+
+/-- v3: … of the same minor version … -/
+theorem v3_obs_of_assignment (s s' : Str) (o o' : V3.Obj) (h : V3.construct s = .ok o) (h' : V3.construct s' = .ok o')
+    (hm : o.minor = o'.minor)
+    (he : ∀ k ∈ keys Gen.V3.abbrs, assignment V3.X o.orig k = assignment V3.X o'.orig k) :
+    obs3 o = obs3 o' ∧ (AnyObj.o3 o).eq (AnyObj.o3 o') = true := by
+  obtain ⟨hp, -, hb, ht, hen, -⟩ := v3_construct_spec h
+  obtain ⟨hp', -, hb', ht', hen', -⟩ := v3_construct_spec h'
+  obtain ⟨-, -, hl, -, -⟩ := C04.v3_parse_ok_fields _ _ _ hp
+  obtain ⟨-, -, hl', -, -⟩ := C04.v3_parse_ok_fields _ _ _ hp'
+  have ha : assignment V3.X o.orig = assignment V3.X o'.orig :=
+    assignment_ext V3.X (keys Gen.V3.abbrs) (keys_subset_of_legal hl) (keys_subset_of_legal hl') he
+  have hc : ∀ b, o.clean b = o'.clean b := fun b => by
+    unfold V3.Obj.clean; rw [hm]; exact v3_cleanOf_congr _ b ha
+  have hbase : o.base = o'.base := by rw [hb, hb', ha]
+  have htemp : o.temporal = o'.temporal := by rw [ht, ht', ha]
+  have henv : o.env = o'.env := by rw [hen, hen', ha, hm]
+  have htv : o.temporalVector = o'.temporalVector := by
+    rw [(v3_subvectors h).1, (v3_subvectors h').1, ha]
+  have hev : o.environmentalVector = o'.environmentalVector := by
+    rw [(v3_subvectors h).2, (v3_subvectors h').2, ha]
+  refine ⟨?_, ?_⟩
+  · simp only [obs3, V3.Obj.scores, V3.Obj.severities, AnyObj.rh, AnyObj.hashKey, AnyObj.base,
+      AnyObj.clean, hc, hbase, htemp, henv, htv, hev]
+  · simp only [AnyObj.eq, AnyObj.ver, AnyObj.clean, hc, decide_true, Bool.and_self]
+
+/-! ### the two transformations are accepted and preserve the assignment -/
+
+/-- v2: any permutation of the fields of an accepted vector is accepted, and states the same values -/
+theorem v2_perm_accepted (s : Str) (o : V2.Obj) (h : V2.construct s = .ok o) (m' : MMap) (hp : o.metrics.Perm m') :
+    ∃ o', V2.construct (join '/' (m'.map fieldOf)) = .ok o' ∧ o'.metrics = m' ∧
+      ∀ k, assignment V2.ND o.metrics k = assignment V2.ND o'.metrics k := by
+  obtain ⟨hp0, -⟩ := v2_construct_spec h
+  obtain ⟨-, hne, hl, hn, hm⟩ := C04.v2_parse_ok_fields _ _ hp0
+  obtain ⟨hne', hl', hn', hm'⟩ := perm_facts hp hne hl hn hm
+  have hparse := C04.v2_parse_render m' hne' hl' (fun kv hkv => C04.pinned2.slashFree (hl' kv hkv)) hn' hm'
+  obtain ⟨o', ho', hmet⟩ := v2_construct_of_parse hparse
+  refine ⟨o', ho', hmet, fun k => ?_⟩
+  rw [hmet]
+  exact assignment_perm V2.ND hp hn k
+
+/-- v2: spelling out an absent optional metric as ND is accepted and states the same values
+    (read from right to left: removing an explicit ND field) -/
+theorem v2_nd_accepted (s : Str) (o : V2.Obj) (h : V2.construct s = .ok o) (k : Str)
+    (hk : k ∈ keys Gen.V2.abbrs) (hopt : k ∉ Gen.V2.mandatory) (habs : lookup k o.metrics = none) :
+    ∃ o', V2.construct (s ++ '/' :: fieldOf (k, V2.ND)) = .ok o' ∧ o'.metrics = o.metrics ++ [(k, V2.ND)] ∧
+      ∀ j, assignment V2.ND o.metrics j = assignment V2.ND o'.metrics j := by
+  obtain ⟨hp0, -⟩ := v2_construct_spec h
+  obtain ⟨hs, hne, hl, hn, hm⟩ := C04.v2_parse_ok_fields _ _ hp0
+  have hkv : LegalPair V2.tables (k, V2.ND) := ndLegal_pair C04.pinned2 nd_legal.1 hk hopt
+  obtain ⟨hne', hl', hn', hm'⟩ := append_facts (kv := (k, V2.ND)) hl hn hm hkv habs
+  have hparse := C04.v2_parse_render _ hne' hl' (fun kv hkv => C04.pinned2.slashFree (hl' kv hkv)) hn' hm'
+  rw [render_append _ _ hne, ← hs] at hparse
+  obtain ⟨o', ho', hmet⟩ := v2_construct_of_parse hparse
+  refine ⟨o', ho', hmet, fun j => ?_⟩
+  rw [hmet]
+  exact assignment_append_nd V2.ND _ k j
+
+theorem v3_perm_accepted (s : Str) (o : V3.Obj) (h : V3.construct s = .ok o) (m' : MMap) (hp : o.orig.Perm m') :
+    ∃ o', V3.construct (V3.versionPrefix o.minor ++ join '/' (m'.map fieldOf)) = .ok o' ∧ o'.orig = m' ∧
+      o'.minor = o.minor ∧ ∀ k, assignment V3.X o.orig k = assignment V3.X o'.orig k := by
+  obtain ⟨hp0, -⟩ := v3_construct_spec h
+  obtain ⟨⟨p, hpi, -⟩, hne, hl, hn, hm⟩ := C04.v3_parse_ok_fields _ _ _ hp0
+  obtain ⟨hne', hl', hn', hm'⟩ := perm_facts hp hne hl hn hm
+  have hparse := C04.v3_parse_render o.minor p hpi m' hne' hl'
+    (fun kv hkv => C04.pinned3.slashFree (hl' kv hkv)) hn' hm'
+  rw [v3_prefix_eq hpi] at hparse
+  obtain ⟨o', ho', hmin, hor⟩ := v3_construct_of_parse hparse
+  refine ⟨o', ho', hor, hmin, fun k => ?_⟩
+  rw [hor]
+  exact assignment_perm V3.X hp hn k
+
+theorem v3_nd_accepted (s : Str) (o : V3.Obj) (h : V3.construct s = .ok o) (k : Str)
+    (hk : k ∈ keys Gen.V3.abbrs) (hopt : k ∉ Gen.V3.mandatory) (habs : lookup k o.orig = none) :
+    ∃ o', V3.construct (s ++ '/' :: fieldOf (k, V3.X)) = .ok o' ∧ o'.orig = o.orig ++ [(k, V3.X)] ∧
+      o'.minor = o.minor ∧ ∀ j, assignment V3.X o.orig j = assignment V3.X o'.orig j := by
+  obtain ⟨hp0, -⟩ := v3_construct_spec h
+  obtain ⟨⟨p, hpi, hs⟩, hne, hl, hn, hm⟩ := C04.v3_parse_ok_fields _ _ _ hp0
+  have hkv : LegalPair V3.tables (k, V3.X) := ndLegal_pair C04.pinned3 nd_legal.2.1 hk hopt
+  obtain ⟨hne', hl', hn', hm'⟩ := append_facts (kv := (k, V3.X)) hl hn hm hkv habs
+  have hparse := C04.v3_parse_render o.minor p hpi _ hne' hl'
+    (fun kv hkv => C04.pinned3.slashFree (hl' kv hkv)) hn' hm'
+  rw [render_append _ _ hne, ← List.append_assoc, ← hs] at hparse
+  obtain ⟨o', ho', hmin, hor⟩ := v3_construct_of_parse hparse
+  refine ⟨o', ho', hor, hmin, fun j => ?_⟩
+  rw [hor]
+  exact assignment_append_nd V3.X _ k j
+
+/-- v4, parser level (constructor level follows with C02): permutation and explicit X are accepted and
+    state the same values; the clean vector (hence equality and hash) is unchanged -/
+theorem v4_perm_accepted (s : Str) (m : MMap) (h : V4.parse s = .ok m) (m' : MMap) (hp : m.Perm m') :
+    V4.parse (V4.pfx ++ join '/' (m'.map fieldOf)) = .ok m' ∧
+      (∀ k, assignment V4.X m k = assignment V4.X m' k) ∧ V4.cleanOf m' true = V4.cleanOf m true := by
+  obtain ⟨-, hne, hl, hn, hm⟩ := C04.v4_parse_ok_fields _ _ h
+  obtain ⟨hne', hl', hn', hm'⟩ := perm_facts hp hne hl hn hm
+  have ha : ∀ k, assignment V4.X m k = assignment V4.X m' k := fun k => assignment_perm V4.X hp hn k
+  refine ⟨C04.v4_parse_render m' hne' hl' (fun kv hkv => C04.pinned4.slashFree (hl' kv hkv)) hn' hm',
+    ha, ?_⟩
+  exact (v4_cleanOf_congr true (funext ha)).symm
+
+theorem v4_nd_accepted (s : Str) (m : MMap) (h : V4.parse s = .ok m) (k : Str)
+    (hk : k ∈ keys Gen.V4.abbrs) (hopt : k ∉ Gen.V4.mandatory) (habs : lookup k m = none) :
+    V4.parse (s ++ '/' :: fieldOf (k, V4.X)) = .ok (m ++ [(k, V4.X)]) ∧
+      (∀ j, assignment V4.X m j = assignment V4.X (m ++ [(k, V4.X)]) j) ∧
+      V4.cleanOf (m ++ [(k, V4.X)]) true = V4.cleanOf m true := by
+  obtain ⟨hs, hne, hl, hn, hm⟩ := C04.v4_parse_ok_fields _ _ h
+  have hkv : LegalPair V4.tables (k, V4.X) := ndLegal_pair C04.pinned4 nd_legal.2.2 hk hopt
+  obtain ⟨hne', hl', hn', hm'⟩ := append_facts (kv := (k, V4.X)) hl hn hm hkv habs
+  have hparse := C04.v4_parse_render _ hne' hl' (fun kv hkv => C04.pinned4.slashFree (hl' kv hkv)) hn' hm'
+  rw [render_append _ _ hne, ← List.append_assoc, ← hs] at hparse
+  have ha : ∀ j, assignment V4.X m j = assignment V4.X (m ++ [(k, V4.X)]) j :=
+    fun j => assignment_append_nd V4.X m k j
+  exact ⟨hparse, ha, (v4_cleanOf_congr true (funext ha)).symm⟩
 
 end Cvss.Props.C05
